@@ -128,8 +128,23 @@ func VC19_Resolution() {
 					fails[h] = 0
 				}
 			} else {
-				mask := rt.Choice("subset", 7) + 1
-				set := c19Subset(pools[h], mask, rt.Choice("rotate", 2))
+				var set []string
+				if rt.Param("RS") > 0 {
+					// restricted successes (longer histories): the same set again, or one other set
+					if rt.Bool("same-set") && len(current[h]) > 0 {
+						set = append([]string{}, current[h]...)
+					} else if len(current[h]) == 2 {
+						set = c19Subset(pools[h], 6, 0)
+						if current[h][0] == pools[h][1] {
+							set = c19Subset(pools[h], 3, 0)
+						}
+					} else {
+						set = c19Subset(pools[h], 3, 0)
+					}
+				} else {
+					mask := rt.Choice("subset", 7) + 1
+					set = c19Subset(pools[h], mask, rt.Choice("rotate", 2))
+				}
 				fakenet.LookupFail[n] = false
 				fakenet.Hosts[n] = set
 				current[h] = append([]string{}, set...)
